@@ -108,10 +108,12 @@ func (bf *buffer) ID() int64 {
 
 func (bf *buffer) Close() error {
 	atomic.StoreInt64(&bf.done, 1)
+	verifYield("Close.after-done", bf)
 
 	bf.pcond.L.Lock()
 	bf.pcond.Broadcast()
 	bf.pcond.L.Unlock()
+	verifYield("Close.between-broadcasts", bf)
 
 	bf.pcond.L.Lock()
 	bf.ccond.Broadcast()
@@ -260,6 +262,7 @@ func (bf *buffer) Read(p []byte) (int, error) {
 
 		// If we got here, that means cpos >= ppos, which means there's no data available.
 		// If so, let's wait...
+		verifYield("Read.pre-lock", bf)
 
 		bf.ccond.L.Lock()
 		for ppos = bf.pseq.get(); cpos >= ppos; ppos = bf.pseq.get() {
@@ -317,6 +320,7 @@ func (bf *buffer) ReadPeek(n int) ([]byte, error) {
 	ppos := bf.pseq.get()
 
 	// If there's no data, then let's wait until there is some data
+	verifYield("ReadPeek.pre-lock", bf)
 	bf.ccond.L.Lock()
 	for ; cpos >= ppos; ppos = bf.pseq.get() {
 		if bf.isDone() {
@@ -380,6 +384,7 @@ func (bf *buffer) ReadWait(n int) ([]byte, error) {
 	next := cpos + int64(n)
 
 	// If there's no data, then let's wait until there is some data
+	verifYield("ReadWait.pre-lock", bf)
 	bf.ccond.L.Lock()
 	for ; next > ppos; ppos = bf.pseq.get() {
 		if bf.isDone() {
@@ -534,6 +539,7 @@ func (bf *buffer) waitForWriteSpace(n int) (int64, int, error) {
 	//
 	if wrap > gate || gate > ppos {
 		var cpos int64
+		verifYield("waitForWriteSpace.pre-lock", bf)
 		bf.pcond.L.Lock()
 		for cpos = bf.cseq.get(); wrap > cpos; cpos = bf.cseq.get() {
 			if bf.isDone() {
